@@ -213,6 +213,7 @@ class Renderer:
                 sep = pu(';', ' ' if self.L.get('spaces') == 2 else '')
                 toks.append(sep)
                 g['toks'][0].pre = ' ' if self.L.get('spaces', 1) else ''
+                g['toks'][0].glue = True
             else:
                 g['toks'][0].pre = ''
             toks += g['toks']
